@@ -241,6 +241,17 @@ def cases(spec, ctx):
                                     start_offset=rng.choice([0, 0, 1, 2]), ident=f"r{k}")
         yield {"kind": "tx", "gen": "random", "tx": t, "glen": glen, "gseed": rng.randrange(1 << 30), "nwin": sc["NWIN"], "wseed": rng.randrange(1 << 30),
                "ncw": sc["NCW"], "alpha": rng.choice(["ACGT", "ACGT", "ACGTacgt"])}
+    # (2b) scale (own stream): transcripts of 17..60 exons on genomes of 300..700 bp, a capped sample of the engineered windows
+    # (window edges inside exons / introns, cutting the CDS ends) - strategies that switch by block count
+    srng = __import__("random").Random(f"C07-scale:{ctx.seed}:{i}")
+    for k in range(max(1, sc["NTX"] // (12 * n))):
+        glen = srng.choice([300, 450, 700])
+        t = None
+        while t is None or len(t["exons"]) < 17:
+            t = GG.rand_transcript_spec(srng, srng.randint(0, 4), glen - srng.randint(0, 4), coding=True, max_exons=srng.choice([24, 40, 60]),
+                                        start_offset=srng.choice([0, 0, 1, 2]), ident=f"s{k}", frameshifts=0)
+        yield {"kind": "tx", "gen": "scale-many-exons", "tx": t, "glen": glen, "gseed": srng.randrange(1 << 30), "nwin": 4, "wseed": srng.randrange(1 << 30),
+               "ncw": 1, "maxwin": 10}
     # (3) thorough: random transcripts under every window of a genome <= ALLWIN_G
     for k in range(sc["ALLWIN_TX"] // n + 1 if sc["ALLWIN_TX"] else 0):
         glen = rng.randint(20, sc["ALLWIN_G"])
@@ -828,6 +839,10 @@ def run_tx_case(case, ctx):
     whole_p = _parent(genome)
     M = CdsModel(t0, genome) if coding else None
     wins = _windows_for([t0["exons"], t0.get("cds") or []], glen, case)
+    if case.get("maxwin") and len(wins) > case["maxwin"]:
+        import random as _random
+
+        wins = wins[:2] + _random.Random(case.get("wseed", 0)).sample(wins[2:], case["maxwin"] - 2)
     lo, hi = exons[0][0], exons[-1][1]
     scan_wins = [(lo + 1, hi), (None, hi - 2)] if hi - lo > 3 else []
 
